@@ -11,6 +11,7 @@ import Driver.C11
 import Driver.C16
 import Driver.C05
 import Driver.C10
+import Driver.C12
 /-! `votca_driver`: reads protocol lines `Cxx <op> <args…>` (implementation outputs included) on stdin,
 runs the executable model definitions (the ones the theorems are about) on the same inputs, prints
 `DISAGREE` / `PROPFAIL` lines for the cases that do not check and a `SUMMARY` at the end. -/
@@ -40,6 +41,7 @@ def dispatch (toks : List String) : Verdict :=
   | "C16" :: r => Driver.C16.handle r
   | "C05" :: r => Driver.C05.handle r
   | "C10" :: r => Driver.C10.handle r
+  | "C12" :: r => Driver.C12.handle r
   | _ => { agree := false, msg := "bad-line unknown property", tag := "bad" }
 
 partial def loop (h : IO.FS.Stream) (maxPrint : Nat) (acc : DAcc) : IO DAcc := do
